@@ -207,6 +207,7 @@ def run(ctx):
         b.cleanup_module()
     k7_witness(ctx)
     dotted_names_probe(ctx)
+    separator_names_probe(ctx)
 
 
 def k7_witness(ctx):
@@ -268,6 +269,50 @@ def dotted_names_probe(ctx):
             if not any(f'{want}' in str(line) or 'w' in str(line) for line in log):
                 ctx.fail('the log beside a stored result is empty or missing', case, {'config': want}); break
         b.cleanup_module()
+
+
+def separator_names_probe(ctx):
+    """the log of a task holds the messages of ITS run: a task `raw_table` that computes its input `raw::table` (or `raw:table`) while it runs
+    does not get that input's messages into its own log — names that differ only in separators are different tasks, also for logging"""
+    from taskchain import Task, Config
+    root = ctx.tmpdir() / 'separators'
+    for k, how in enumerate(['namespace', 'group']):
+        class Table(Task):
+            class Meta:
+                name = 'table'
+                task_group = 'raw' if how == 'group' else ''
+
+            def run(self) -> int:
+                self.logger.info('MESSAGE-OF-THE-INPUT')
+                return 1
+        inner = 'raw::table' if how == 'namespace' else 'raw:table'
+
+        class RawTable(Task):
+            class Meta:
+                name = 'raw_table'
+                input_tasks = [inner]
+
+            def run(self) -> int:
+                self.logger.info('own message, before the input')
+                v = self.input_tasks[inner].value          # the input is computed HERE, inside this run
+                self.logger.info('own message, after the input')
+                return v + 1
+        case = {'probe': 'names that differ only in separators', 'input': inner, 'task': 'raw_table'}
+        ctx.case(case); ctx.count('separator-names-probe')
+        if how == 'namespace':
+            sub = Config(root / f'd{k}', name='sub', namespace='raw', data={'tasks': [Table]})
+            cfg = Config(root / f'd{k}', name='main', data={'tasks': [RawTable], 'uses': [sub]})
+        else:
+            cfg = Config(root / f'd{k}', name='main', data={'tasks': [Table, RawTable]})
+        try:
+            ch = cfg.chain()
+            _ = ch['raw_table'].value
+            own = ' '.join(map(str, ch['raw_table'].log or []))
+            other = ' '.join(map(str, ch[inner].log or []))
+        except Exception as e:      # noqa
+            ctx.notes['separator-names'] = f'{type(e).__name__}: {e}'[:160]; continue
+        if 'MESSAGE-OF-THE-INPUT' in own or 'MESSAGE-OF-THE-INPUT' not in other or 'own message' in other:
+            ctx.fail('the log of a task contains messages of another task\'s run (or lacks its own)', case, {'log_of_raw_table': own[:300], 'log_of_input': other[:300]})
 
 
 def search(ctx, divergences):
